@@ -32,7 +32,7 @@ def rmChildStep (dig : Nat) (_ : Unit) (c : Desc) : Unit × Act Desc :=
 def rmMainStep (d : Desc) (tag subj : Nat) (found : Bool) (e : Desc) : Bool × Act Desc :=
   if d.dig ≠ 0 ∧ e.dig = d.dig then
     if tag ≠ 0 then
-      if found ∧ (e.ann.isNil ∨ e.ann.tag = tag) then (true, .drop)
+      if found ∧ (e.ann.len = 0 ∨ e.ann.tag = tag) then (true, .drop)
       else if ¬ e.ann.isNil ∧ e.ann.tag = tag then (true, .set { e with ann := { e.ann with tag := 0 } })
       else (true, .keep)
     else (found, .drop)
@@ -77,10 +77,23 @@ def moveChildren : List Desc → Index → Index
   | cd :: cs, ix =>
     match findIdx (fun m => m.dig = cd.dig ∧ m.ann.len = 0) ix.manifests 0 with
     | some mi => moveChildren cs { manifests := swapRemove ix.manifests mi, children := ix.children ++ [cd] }
-    | none => moveChildren cs ix
+    | none =>
+      -- children that were never top-level entries are recorded too (unless the digest is known already)
+      if ix.manifests.any (·.dig = cd.dig) ∨ ix.children.any (·.dig = cd.dig) then moveChildren cs ix
+      else moveChildren cs { ix with children := ix.children ++ [cd] }
 
 def compatible (md : Desc) (tag subj : Nat) : Bool :=
-  md.ann.isNil ∨ ((tag = 0 ∨ md.ann.tag = 0 ∨ md.ann.tag = tag) ∧ (subj = 0 ∨ md.ann.subj = 0 ∨ md.ann.subj = subj))
+  md.ann.isNil ∨ ((md.ann.tag = 0 ∨ md.ann.tag = tag) ∧ (md.ann.subj = 0 ∨ md.ann.subj = subj))
+
+/-- last part of AddDesc for a descriptor with a tag or referrer annotation: an entry of the digest that already
+    carries the same tag and referrer is overwritten, else the first compatible entry, else `d` is appended -/
+def placeDesc (l : List Desc) (d : Desc) (tag subj : Nat) : List Desc :=
+  match findIdx (fun md => md.dig = d.dig ∧ ¬ md.ann.isNil ∧ md.ann.tag = tag ∧ md.ann.subj = subj) l 0 with
+  | some mi => l.set mi d
+  | none =>
+    match findIdx (fun md => md.dig = d.dig ∧ compatible md tag subj) l 0 with
+    | some mi => l.set mi d
+    | none => l ++ [d]
 
 def addDesc (ix : Index) (d : Desc) (children : List Desc := []) : Index :=
   let tag := if d.ann.isNil then 0 else d.ann.tag
@@ -93,15 +106,13 @@ def addDesc (ix : Index) (d : Desc) (children : List Desc := []) : Index :=
   if tag = 0 ∧ subj = 0 then
     if ix3.manifests.any (·.dig = d.dig) then ix3 else { ix3 with manifests := ix3.manifests ++ [d] }
   else
-    match findIdx (fun md => md.dig = d.dig ∧ compatible md tag subj) ix3.manifests 0 with
-    | some mi => { ix3 with manifests := ix3.manifests.set mi d }
-    | none => { ix3 with manifests := ix3.manifests ++ [d] }
+    { ix3 with manifests := placeDesc ix3.manifests d tag subj }
 
 /-- GetDesc: 1 = found (prints mt,dig,size,tag), 0 = not found -/
 def getDescTag (ix : Index) (t : Nat) : Option Desc :=
   if ix.manifests.isEmpty then none else ix.manifests.find? (fun d => ¬ d.ann.isNil ∧ d.ann.tag = t)
 def getDescDig (ix : Index) (g : Nat) : Option Desc :=
-  if ix.manifests.isEmpty then none else
+  if ix.manifests.isEmpty ∧ ix.children.isEmpty then none else
   match ix.manifests.find? (·.dig = g) with
   | some d => some { mt := d.mt, dig := d.dig, size := d.size }
   | none => (ix.children.find? (·.dig = g)).map fun d => { mt := d.mt, dig := d.dig, size := d.size }
